@@ -7,16 +7,20 @@ use phylotree::verif::RawSlot;
 use std::collections::BTreeMap;
 use std::process::Command;
 
-const BIN: &str = "/verif/harness/target/cli/debug/phylotree";
+const DEFAULT_BIN: &str = "/verif/harness/target/cli/debug/phylotree";
+/// the real binary built from /repo (the check stages a private copy and names it in PVH_CLI)
+fn bin() -> String {
+    std::env::var("PVH_CLI").unwrap_or_else(|_| DEFAULT_BIN.to_string())
+}
 
 struct Run {
     stdout: String,
     code: Option<i32>,
 }
 fn run_cli(args: &[&str]) -> Run {
-    match Command::new(BIN).args(args).output() {
+    match Command::new(bin()).args(args).output() {
         Ok(o) => Run { stdout: String::from_utf8_lossy(&o.stdout).to_string(), code: o.status.code() },
-        Err(e) => Run { stdout: format!("cannot run {BIN}: {e}"), code: None },
+        Err(e) => Run { stdout: format!("cannot run {}: {e}", bin()), code: None },
     }
 }
 
@@ -97,8 +101,8 @@ struct Pend {
 }
 
 pub fn run(thorough: bool, seed: u64, driver: &str, rep: &mut Report) {
-    if !std::path::Path::new(BIN).exists() {
-        rep.mismatch("c18.cli", "binary-missing", "", "", &format!("{BIN} was not built"));
+    if !std::path::Path::new(&bin()).exists() {
+        rep.mismatch("c18.cli", "binary-missing", "", "", &format!("{} was not built", bin()));
         return;
     }
     let dir = format!("/verif/work/cli-{}", std::process::id());
